@@ -344,7 +344,46 @@ theorem memmoveBack_spec (d s : Nat) (hsd : s ≤ d) : ∀ (n : Nat) (b : Buf), 
 
 /-! ### comparisons -/
 
-theorem key_eq (ct : CT) : Spec.key ct.bits ct.signedCmp = ct.key := rfl
+/-- the order the spec states (`Spec.key`: identity / balanced remainder) is the one `compare_units` computes
+    (`CT.key`: cast to `unsigned char` / subtract 2^bits from the upper half) on every value of the character type -/
+theorem key_eq (ct : CT) (hb : 0 < ct.bits) {u : Nat} (hu : u < 2 ^ ct.bits) : Spec.key ct.bits ct.signedCmp u = ct.key u := by
+  have hp : 2 ^ ct.bits = 2 * 2 ^ (ct.bits - 1) := by
+    have : ct.bits = (ct.bits - 1) + 1 := by omega
+    rw [this, Nat.pow_succ]; simp; omega
+  unfold Spec.key CT.key
+  generalize 2 ^ (ct.bits - 1) = H at *
+  cases ct.signedCmp
+  · simp
+  · simp only [if_true, Bool.true_and, decide_eq_true_eq]
+    rw [Int.bmod_def, hp]
+    have : ((u : Int) % ((2 * H : Nat) : Int)) = u := Int.emod_eq_of_lt (by omega) (by omega)
+    rw [this]
+    split <;> split <;> omega
+
+theorem cmp_congr {k k' : Nat → Int} : ∀ (l1 l2 : List Nat), (∀ x ∈ l1, k x = k' x) → (∀ y ∈ l2, k y = k' y) →
+    Spec.cmp k l1 l2 = Spec.cmp k' l1 l2
+  | [], [], _, _ => rfl
+  | [], _ :: _, _, _ => rfl
+  | _ :: _, [], _, _ => rfl
+  | x :: xs, y :: ys, h1, h2 => by
+    simp only [Spec.cmp, h1 x (by simp), h2 y (by simp)]
+    rw [cmp_congr xs ys (fun z hz => h1 z (List.mem_cons_of_mem _ hz)) (fun z hz => h2 z (List.mem_cons_of_mem _ hz))]
+
+theorem mem_of_mem_upto0 : ∀ {l : List Nat} {y : Nat}, y ∈ Spec.upto0 l → y ∈ l
+  | [], y, h => by simp [Spec.upto0] at h
+  | x :: l, y, h => by
+    by_cases hx : x = 0
+    · simp [Spec.upto0, hx] at h; simp [h, hx]
+    · simp only [Spec.upto0, hx, if_false, List.mem_cons] at h
+      rcases h with h | h
+      · simp [h]
+      · exact List.mem_cons_of_mem _ (mem_of_mem_upto0 h)
+
+/-- `Spec.cmp` under the spec's key = `Spec.cmp` under the model's key, on lists cut out of allocations of units -/
+theorem cmp_key_eq (ct : CT) (hb : 0 < ct.bits) {a b : Buf} (hua : Spec.Units ct.bits a) (hub : Spec.Units ct.bits b)
+    (l1 l2 : List Nat) (h1 : ∀ x ∈ l1, x ∈ a) (h2 : ∀ y ∈ l2, y ∈ b) :
+    Spec.cmp (Spec.key ct.bits ct.signedCmp) l1 l2 = Spec.cmp ct.key l1 l2 :=
+  cmp_congr l1 l2 (fun x hx => key_eq ct hb (hua x (h1 x hx))) (fun y hy => key_eq ct hb (hub y (h2 y hy)))
 
 
 theorem key_inj (ct : CT) (hb : 0 < ct.bits) {x y : Nat} (hx : x < 2 ^ ct.bits) (hy : y < 2 ^ ct.bits)
